@@ -94,6 +94,12 @@ Qed.
 End Rewritten.
 
 (* ---------- one accepted event passes subst_ok ---------- *)
+Lemma subst_ok_weaken b ev o : subst_ok ev o = true -> subst_ok_gen b ev o = true.
+Proof.
+  unfold subst_ok, subst_ok_gen. cbn [andb]. rewrite !orb_false_r, !andb_true_iff.
+  intros [[A B] C]. rewrite B, C. cbn [orb]. split; [split; [exact A|reflexivity]|reflexivity].
+Qed.
+
 Lemma filter_ext_in {T} (f g : T -> bool) l : (forall x, In x l -> f x = g x) -> filter f l = filter g l.
 Proof.
   induction l as [|x t IH]; cbn; intros H; [reflexivity|]. rewrite (H x (or_introl eq_refl)), IH; [reflexivity|].
@@ -120,7 +126,7 @@ Proof.
   pose proof (vf_nonnull _ VF) as NN. rewrite Forall_forall in NN.
   set (m := mu pa pc) in *.
   assert (MFIX : forall v, is_raw v = false -> m v = v) by (intros v; apply mu_not_raw).
-  unfold subst_ok, out_obs. cbn [o_arg o_creates o_updates o_newids o_recs].
+  unfold subst_ok, subst_ok_gen, out_obs. cbn [o_arg o_creates o_updates o_newids o_recs andb]. rewrite !orb_false_r.
   rewrite SA, SC, SU, !map_length, !Nat.eqb_refl, rows_eqb_refl, andb_true_r. cbn [andb].
   rewrite <- map_app.
   set (ins := e_arg ev ++ e_creates ev) in *.
@@ -216,9 +222,9 @@ Qed.
 (* ---------- histories ---------- *)
 Lemma satisfies_from_ext t : forall s1 s2, (forall k, s1 k = s2 k) -> satisfies_from s1 t = satisfies_from s2 t.
 Proof.
-  induction t as [|[ws ev o|] t IH]; intros s1 s2 H; cbn; [reflexivity| |apply IH; exact H].
-  destruct (o_ok o); [|apply IH; exact H]. rewrite (H ws). f_equal. apply IH.
-  intros k. destruct (k =? ws); [reflexivity|apply H].
+  induction t as [|[ws ev o| |ws ev o] t IH]; intros s1 s2 H; cbn; [reflexivity| |apply IH; exact H|];
+    (destruct (o_ok o); [|apply IH; exact H]; rewrite (H ws); f_equal; apply IH;
+     intros k; destruct (k =? ws); [reflexivity|apply H]).
 Qed.
 
 Definition f12_free (h : list iop) : Prop := forall ws ev, In (IEvent ws ev) h -> cud_refs_arg_free ev.
@@ -350,7 +356,7 @@ Proof.
       assert (RM0 : room 0 (w_next (st ws0)) (e_arg ev ++ e_creates ev)).
       { destruct RM as [R1 R2]. split; [lia|]. eapply Forall_impl; [|exact R2]. cbn. intros; lia. }
       pose proof (subst_ok_model au ps _ ev _ ev' rep Hv HS0 A0 RM0 HF0 HPL0 RG) as SO. cbn [out_obs] in SO.
-      rewrite SO. cbn [andb].
+      rewrite (subst_ok_weaken _ _ _ SO). cbn [andb].
       pose proof (new_event_ok_model au ps _ ev _ ev' rep Hv HS0 A0 RM0 HF0 HPL0 RG) as NE. cbn [out_obs] in NE.
       rewrite NE. cbn [andb].
       (* freshness *)
@@ -725,4 +731,14 @@ Definition args_closedb (h : list iop) : bool :=
 Lemma args_closedb_sound h : args_closedb h = true -> args_closed h.
 Proof.
   unfold args_closedb, args_closed. rewrite forallb_forall. intros H ws ev I. apply arg_fields_closedb_sound. exact (H _ I).
+Qed.
+
+(* ---------- the APIv2 reply encoding ---------- *)
+Lemma agrees_event_ext (f g : N -> N) st ws ev o :
+  (forall x, f x = g x) -> agrees_event f st ws ev o = agrees_event g st ws ev o.
+Proof.
+  intros E. unfold agrees_event. destruct (step_event (st ws) ev) as [w' [|ev' rep]]; [reflexivity|].
+  rewrite (map_ext (fun p : N * N => (fst p, f (snd p))) (fun p => (fst p, g (snd p)))) by (intros p; rewrite E; reflexivity).
+  rewrite (map_ext (fun p : N * N => (fst p, f (snd p))) (fun p => (fst p, g (snd p))) (o_newids o)) by (intros p; rewrite E; reflexivity).
+  reflexivity.
 Qed.
